@@ -14,12 +14,13 @@ import re
 from typing import List, Tuple
 
 from vp.api import P, harness, in_shard, reached
-from harness._misc2 import ref_unquote_to_bytes, DummyConnection, fix_crosshair_groupdict
+from harness._misc2 import ref_unquote_to_bytes, DummyConnection, fix_crosshair_groupdict, fix_time
 
 from tornado import httputil, routing, web
 from tornado.routing import Rule, RuleRouter, PathMatches, HostMatches, URLSpec
 
 fix_crosshair_groupdict()
+fix_time(httputil, web)    # constant clock for HTTPServerRequest._start_time (stub, see _misc2.FixedTime)
 
 
 class H0(web.RequestHandler):
@@ -103,7 +104,7 @@ _APP1 = [web.Application([(p[0], H0)]) for p in POOL]   # real constructor, conc
 
 
 def pre_one(pi: int, path: str) -> bool:
-    if not (0 <= pi < NP and 1 <= len(path) <= P.L):
+    if not (0 <= pi < NP and in_shard(pi) and 1 <= len(path) <= P.L):
         return False
     alpha = ALPHA_GRP if POOL[IDX[pi]][3] else ALPHA_ESC
     for c in path:
@@ -114,8 +115,8 @@ def pre_one(pi: int, path: str) -> bool:
 
 @harness(
     pre=pre_one,
-    quick=dict(L=4, timeout=100),
-    thorough=dict(L=5, timeout=1200),
+    quick=dict(L=4, timeout=200, reach_timeout=200),
+    thorough=dict(L=5, timeout=1200, reach_timeout=400),
     nshards=NP,
     reach=["matched_decoded", "not_found", "trailing_garbage"],
     units=["web.Application.find_handler", "routing.RuleRouter.find_handler", "routing.PathMatches.match",
@@ -159,7 +160,8 @@ _APP2 = [[[_mk_app2(p0, p1, wi) for wi in WPOOL] for p1 in range(NP)] for p0 in 
 
 
 def pre_app(r0: int, r1: int, w: int, hsel: int, path: str) -> bool:
-    if not (0 <= r0 < len(P.SP) and 0 <= r1 < len(P.SP) and 0 <= w < P.NW and 0 <= hsel <= 1):
+    if not (0 <= r0 < len(P.SP) and 0 <= r1 < len(P.SP) and in_shard(r0 + len(P.SP) * r1)
+            and 0 <= w < P.NW and 0 <= hsel <= 1):
         return False
     if not (1 <= len(path) <= P.L):
         return False
@@ -230,7 +232,7 @@ _RR = [RuleRouter([Rule(HostMatches(hp), RuleRouter([Rule(PathMatches(POOL[HP0][
 
 
 def pre_host(hp: int, hi: int, path: str) -> bool:
-    if not (0 <= hp < len(HOSTPATS) and 0 <= hi < len(HOSTS) and 1 <= len(path) <= P.L):
+    if not (0 <= hp < len(HOSTPATS) and in_shard(hp) and 0 <= hi < len(HOSTS) and 1 <= len(path) <= P.L):
         return False
     for c in path:
         if c not in "/ab":
@@ -312,11 +314,12 @@ def _decode_arg(n: int, maxlen: int) -> str:
 
 
 def pre_rev(pi: int, a0: int, a1: int) -> bool:
-    if not (0 <= pi < NP):
+    if not (0 <= pi < NP and in_shard(pi)):
         return False
-    if not POOL[IDX[pi]][2]:
+    pi = IDX[pi]
+    if not POOL[pi][2]:
         return False
-    ng = len(POOL[IDX[pi]][3])
+    ng = len(POOL[pi][3])
     la = P.LA if ng <= 1 else P.LA2
     if not (0 <= a0 < (_nvals(la) if ng >= 1 else 1) and 0 <= a1 < (_nvals(la) if ng >= 2 else 1)):
         return False
